@@ -5,6 +5,7 @@
 package vpebble
 
 import (
+	"context"
 	"io"
 
 	"github.com/BlackVectorOps/semantic_firewall/v3/internal/verifshim/vrt"
@@ -24,6 +25,20 @@ var (
 	NoSync      = pebble.NoSync
 	ErrNotFound = pebble.ErrNotFound
 	ErrClosed   = pebble.ErrClosed
+)
+
+// Reader is pebble.Reader over the instrumented types: what the live database and a snapshot of it
+// have in common (a tree that passes "the thing to read from" around names this interface).
+type Reader interface {
+	Get(key []byte) ([]byte, io.Closer, error)
+	NewIter(o *pebble.IterOptions) (*Iterator, error)
+	NewIterWithContext(ctx context.Context, o *pebble.IterOptions) (*Iterator, error)
+	Close() error
+}
+
+var (
+	_ Reader = (*DB)(nil)
+	_ Reader = (*Snapshot)(nil)
 )
 
 func NewCache(size int64) *pebble.Cache { return pebble.NewCache(size) }
@@ -81,6 +96,15 @@ func (d *DB) NewIter(o *pebble.IterOptions) (*Iterator, error) {
 	return &Iterator{it}, nil
 }
 
+func (d *DB) NewIterWithContext(ctx context.Context, o *pebble.IterOptions) (*Iterator, error) {
+	vrt.Yield("DB.NewIter")
+	it, err := d.DB.NewIterWithContext(ctx, o)
+	if err != nil {
+		return nil, err
+	}
+	return &Iterator{it}, nil
+}
+
 type Batch struct {
 	*pebble.Batch
 	db *pebble.DB
@@ -105,6 +129,15 @@ func (s *Snapshot) Get(key []byte) ([]byte, io.Closer, error) {
 func (s *Snapshot) NewIter(o *pebble.IterOptions) (*Iterator, error) {
 	vrt.Yield("Snapshot.NewIter")
 	it, err := s.Snapshot.NewIter(o)
+	if err != nil {
+		return nil, err
+	}
+	return &Iterator{it}, nil
+}
+
+func (s *Snapshot) NewIterWithContext(ctx context.Context, o *pebble.IterOptions) (*Iterator, error) {
+	vrt.Yield("Snapshot.NewIter")
+	it, err := s.Snapshot.NewIterWithContext(ctx, o)
 	if err != nil {
 		return nil, err
 	}
